@@ -14,6 +14,13 @@ exception becomes the monitor failure 'constructible code <family> <size> raises
 {family, size, call} and the run continues (next access, next size); the per-size structural cases run under
 common.per_size, which turns any exception raised inside qecsim into the same kind of failure.  IndexError is accepted
 as an answer only from the writes that take an index (site / plaquette / path).
+* qv/c07_large.py — SIZE as an input class beyond the bound: colour codes up to 31 (45), squares up to 20x20 (30x30),
+  rectangles and strips up to 41 (81) long, with only O(n)-cost facts on the real code: n_k_d formula, the lattice-index
+  <-> qubit map is a bijection onto range(n) in the documented order (also against the Lean `flat`), plaquette count
+  (Lean `plaqidx`), documented stabilizer weights, exact SPARSE commutation / logical pairing through shared qubits.
+The read-back / history layer takes the OPERATOR argument as a class: every documented value 'I','X','Y','Z' of `site`
+(all families) and of the colour code's `plaquette(operator, index)`, each write compared with an independent statement
+of its bsf and read back with operator() at every site.
 Size grids (both layers): the square grid [min..bound]^2 — which already holds rows >= 2 cols and cols >= 2 rows — plus
 STRIPS beyond it in both orientations (narrow side the one or two smallest legal values, long side up to 12-14 in the
 quick and 16-30 in the thorough tier; aspect ratios up to 6-7 / 8-15); the coverage is recorded in the evidence
@@ -37,7 +44,11 @@ RULE = ('for every accepted size up to the bound: stabilizers, logical_xs, logic
         'independence, shapes) evaluated directly on the real matrices; every access to the published data of a '
         'constructible code (n_k_d, stabilizers, logical_xs, logical_zs, logicals, validate(), new_pauli(), label, repr, '
         '==, hash) guarded one by one (an exception is a failure naming family, size and call), on the square grid plus '
-        'tall-narrow / short-wide strips in both orientations. non-trivial = every case except index-kind '
+        'tall-narrow / short-wide strips in both orientations; every documented operator value (I, X, Y, Z) of site() and of '
+        'the colour plaquette(operator, index) with an independent statement of the written bsf; sizes far beyond the '
+        'bound (colour up to 31/45, squares up to 20/30, strips up to 41/81) with O(n)-cost facts only: n_k_d formula, '
+        'site -> qubit map a bijection onto range(n) in the documented order (and equal to the Lean flat), plaquette '
+        'count / index list, stabilizer weights, exact sparse commutation and logical pairing. non-trivial = every case except index-kind '
         'predicates and reads that yield I / IndexError')
 
 FAMILIES = ['planar', 'rotatedplanar', 'toric', 'rotatedtoric', 'color666', 'basic']
@@ -49,6 +60,8 @@ def run(ctx):
     only = os.environ.get('QV_FAMILIES')
     only = only.split(',') if only else None
     mon = c07_access.run(ctx, only=only)
+    from qv import c07_large
+    c07_large.run(ctx, mon, only=only)   # SIZE well past the exhaustive bound, O(n)-cost structural facts (qv/c07_large.py)
     for fam in FAMILIES:
         if only and fam not in only:
             continue
